@@ -154,6 +154,8 @@ void init_console_user(int reconnect) {
 
   object_t* ob;
   new_interactive(STDIN_FILENO);
+  if (!master_ob->interactive)
+    return; /* refused, e.g. a console user is already connected */
   master_ob->interactive->connection_type = CONSOLE_USER;
   master_ob->interactive->addr.sin_addr.s_addr = htonl(INADDR_LOOPBACK);
   eval_cost = CONFIG_INT (__MAX_EVAL_COST__);
@@ -260,9 +262,8 @@ void backend () {
 
   if (setjmp (econ.context))
     restore_context (&econ);
-
-  if (MAIN_OPTION(console_mode))
-    init_console_user(0);
+  else if (MAIN_OPTION(console_mode))
+    init_console_user(0); /* only once; an uncaught error must not log the console user in again */
 
   while (1)
     {
